@@ -139,7 +139,10 @@ func (ex *Exec) runInit() {
 	}
 	// everything reachable from package-level variables is shared state
 	seen := map[*Obj]bool{}
-	for _, ptr := range ex.globals {
+	for g, ptr := range ex.globals {
+		if ex.W.isHarnessGlobal(g) {
+			continue
+		}
 		o := ptr.base.owner()
 		if !seen[o] {
 			seen[o] = true
